@@ -34,7 +34,8 @@ PROPERTY = "C11"
 RULE = ("every RemoteValue* class found by introspection (each with its configurations), group_value_write/response with and "
         "without value_type, and the MCP write tool x a value pool spanning ranges and types (None, bools, ints around 0/63/64/"
         "255/256/2^n, floats incl. nan/inf/ties, strings, bytes, lists/tuples with out-of-range / non-int items and lengths "
-        "around 253/254, dicts, enums, date/time objects, payload objects) plus random values near each DPT's declared range; "
+        "around 253/254, dicts, enums, date/time objects, payload objects) plus random values near each DPT's declared range, plus every numeric DPT class through RemoteValueSensor with fractional values on "
+        "both sides of both range bounds (bound + f x {resolution, 1}, f in +-{0, 1e-9, .3, .5, .7, .999, 1, 1.5}); "
         "non-trivial = distinct (target, configuration, value) triples")
 TRUSTED = [
     "DPT transcoders are a black box here: the model is given what DPT.to_knx returned/raised for the value (C07-C10 cover the codecs)",
@@ -221,7 +222,7 @@ def random_value(rng, dpt=None):
         res = getattr(dpt, "resolution", 1) or 1
         if isinstance(lo, (int, float)) and isinstance(hi, (int, float)):
             base = rng.choice([lo, hi, 0, (lo + hi) / 2])
-            delta = rng.choice([0, res, -res, res / 2, -res / 2, 1, -1, res * 1.0000001, 1e-9, -1e-9, abs(hi - lo) or 1])
+            delta = rng.choice([0, res, -res, res / 2, -res / 2, 0.7 * res, -0.7 * res, 0.3, -0.3, 0.7, -0.7, 1, -1, res * 1.0000001, 1e-9, -1e-9, abs(hi - lo) or 1])
             x = base + delta
             if rng.random() < 0.5 and float(x).is_integer() and abs(x) < 2**62:
                 return V("int", str(int(x)))
@@ -241,6 +242,8 @@ def random_value(rng, dpt=None):
     return rng.choice(BASE_VALUES)
 
 
+BOUND_FRACS = [-1.5, -1, -0.999, -0.7, -0.5, -0.3, -1e-9, 0, 1e-9, 0.3, 0.5, 0.7, 0.999, 1, 1.5]
+
 FULL_POOL = {"RemoteValueScaling", "RemoteValueRaw", "RemoteValueSwitch", "RemoteValueStep", "RemoteValueUpDown", "RemoteValueSetpointShift"}
 
 
@@ -257,6 +260,26 @@ def generate(rng, tier):
             dpt = dpt_of(name, cfg)
             for _ in range(40 if not thorough else 1500):
                 yield {"target": "rv", "cls": name, "cfg": cfg, "value": random_value(rng, dpt), "response": rng.random() < 0.2}
+    # every numeric DPT class through a remote value, with fractional values on both sides of both range bounds (a range test on
+    # int(value) and an encoder that rounds - or the other way round - disagree only there)
+    for d in DPTBase.dpt_class_tree():
+        if inspect.isabstract(d) or d.dpt_main_number is None:
+            continue
+        lo, hi = getattr(d, "value_min", None), getattr(d, "value_max", None)
+        if not (isinstance(lo, (int, float)) and isinstance(hi, (int, float))) or isinstance(lo, bool):
+            continue
+        res = getattr(d, "resolution", 1) or 1
+        seen = set()
+        for base in (lo, hi):
+            for unit in {res, 1}:
+                for f in BOUND_FRACS:
+                    x = base + f * unit
+                    if x in seen or not math.isfinite(x):
+                        continue
+                    seen.add(x)
+                    v = V("int", str(int(x))) if float(x).is_integer() and abs(x) < 2**62 and rng.random() < 0.5 else enc_float(float(x))
+                    yield {"target": "rv", "cls": "RemoteValueSensor", "cfg": {"value_type": d.dpt_number_str()}, "value": v,
+                           "response": False}
     vts = [None, "temperature", "percent", "string", "1.001", 5, "9.001", "time", "date", "color_rgb", "20.102", "percentV16", "angle",
            "4byte_float", "scene_number", "pulse_2byte", "14.019", "unknown-type", 99999]
     for target in ("gvw", "gvr", "mcp"):
